@@ -58,4 +58,11 @@ func init() {
 		Assumptions: commonAssumptions,
 		Rules:       []string{"C10/union", "C10/recorded", "C10/errors", "C10/slices"},
 	}, ruleC10Union, ruleC10Recorded, ruleC10Errors, ruleC10Slices)
+	register(PropertyMeta{
+		ID:          "C07",
+		Level:       "other",
+		Explanation: "Decided as tables and call shapes of the parser: (prec) operatorPrecedence read from its switch: or < and < {== != < <= > >= =~ !~ in} < {+ -} < {* / %}, equal within a level, every other kind negative - only the order is compared; (assoc) with path facts in exprBinaryTrail: a BinaryExpr is built only when the operator's precedence is >= 0 and >= the level's minimum, its left operand is everything parsed so far, the right operand is extended only by a recursive call with minimum = current+c (c>=1) taken when the next operator binds strictly tighter, and a full expression starts at the weakest level; (in) a complete `x in (...)` continues the operator loop as the new left operand; (sign) + and - take a primaryExpr operand; (synonyms) each of the 14 operator keywords builds the documented node type and appends it, where/filter, sort/order, take/limit share a clause; (sortdefaults) asc/desc/nulls first/last set the documented flags and the compiler renders them. Not decided: the tree for every derivation, layout independence (these quantify over inputs).",
+		Assumptions: commonAssumptions,
+		Rules:       []string{"C07/prec", "C07/kinds", "C07/assoc", "C07/in", "C07/sign", "C07/synonyms", "C07/sortdefaults"},
+	}, ruleC07Prec, ruleC07Assoc, ruleC07Shapes)
 }
